@@ -203,15 +203,19 @@ fn wal_damage_run(ckpt_after: Option<usize>) {
     let dir = tempfile::tempdir().unwrap();
     let cfg = Config { num_ops_per_wal: NonZeroU64::new(1000).unwrap(), scan_orphans_on_startup: false, ..Config::default() };
     let n_ops = 6usize;
+    // the history: six puts, one removal, then the same put (same key, same content: byte-identical payloads) three times in a row
+    let mut hist: Vec<(String, Option<Vec<u8>>)> = (0..n_ops).map(|i| (format!("key{i}"), Some(format!("value-{i}").into_bytes()))).collect();
+    hist.push(("key1".to_string(), None));
+    for _ in 0..3 { hist.push(("key2".to_string(), Some(b"value-2".to_vec()))); }
     {
         let cas: crate::Cas<String> = crate::Cas::open(dir.path(), cfg.clone()).unwrap();
-        for i in 0..n_ops {
-            let mut tx = cas.put(format!("key{i}")).unwrap();
-            tx.write(format!("value-{i}").as_bytes()).unwrap();
-            tx.finish().unwrap();
+        for (i, (k, v)) in hist.iter().enumerate() {
+            match v {
+                Some(v) => { let mut tx = cas.put(k.clone()).unwrap(); tx.write(v).unwrap(); tx.finish().unwrap(); }
+                None => { cas.remove(k).unwrap(); }
+            }
             if ckpt_after == Some(i + 1) { cas.checkpoint().unwrap(); }
         }
-        if n_ops > 3 { cas.remove(&"key1".to_string()).unwrap(); }
     }
     let seg = dir.path().join("0_index.wal");
     let orig = std::fs::read(&seg).unwrap();
@@ -223,12 +227,13 @@ fn wal_damage_run(ckpt_after: Option<usize>) {
         if v == 0 || n == 0 { break; }
         recs.push((off, 44 + n)); off += 44 + n;
     }
-    assert!(recs.len() >= n_ops, "expected {n_ops}+ records, found {}", recs.len());
-    let keys_after = |k: usize| -> Vec<String> { // state after the first k records
-        let mut m = std::collections::BTreeSet::new();
-        for i in 0..k.min(n_ops) { m.insert(format!("key{i}")); }
-        if k > n_ops { m.remove("key1"); }
-        m.into_iter().collect()
+    assert_eq!(recs.len(), hist.len(), "one log record per acknowledged operation");
+    let keys_after = |k: usize| -> Vec<(String, BlobHash, u64)> { // state after the first k records
+        let mut m = std::collections::BTreeMap::new();
+        for (key, v) in hist.iter().take(k) {
+            match v { Some(v) => { m.insert(key.clone(), (crate::calculate_blob_hash(v), v.len() as u64)); } None => { m.remove(key); } }
+        }
+        m.into_iter().map(|(k, (h, n))| (k, h, n)).collect()
     };
     let mut rng = Rng::new();
     let mut cases: Vec<(String, Vec<u8>, usize)> = vec![];
@@ -238,6 +243,8 @@ fn wal_damage_run(ckpt_after: Option<usize>) {
         for cut in [*o, *o + 1, *o + 43, *o + 44, *o + 45, *o + len - 1] { if cut < o + len { cases.push((format!("truncate at {cut} (record {ri})"), orig[..cut].to_vec(), ri)); } }
         // single-byte change in checksum / payload
         for _ in 0..6 { let p = o + 8 + rng.below((*len - 8) as u64) as usize; if p >= o + 40 && p < o + 44 { continue; } let mut d = orig.clone(); d[p] ^= 1 + rng.below(255) as u8; cases.push((format!("flip byte {p} (record {ri})"), d, ri)); }
+        // every payload byte of a short record (all records of this history are short)
+        if *len <= 44 + 64 { for p in (o + 44)..(o + len) { let mut d = orig.clone(); d[p] ^= 0x01; cases.push((format!("flip payload byte {p} (record {ri})"), d, ri)); } }
     }
     for (what, data, ri) in cases {
         let d2 = tempfile::tempdir().unwrap();
@@ -255,7 +262,7 @@ fn wal_damage_run(ckpt_after: Option<usize>) {
         let r = rxc.recv_timeout(std::time::Duration::from_secs(60)).unwrap_or_else(|_| panic!("open did not return within 60 s on damaged log: {what}"));
         let r = r.unwrap_or_else(|_| panic!("open panicked on damaged log: {what}"));
         if let Ok(c) = r {
-            let got: Vec<String> = c.read_index_state().iter().map(|(k, _)| k.clone()).collect();
+            let got: Vec<(String, BlobHash, u64)> = c.read_index_state().iter().map(|(k, it)| (k.clone(), it.blob_hash, it.blob_size)).collect();
             assert_eq!(got, keys_after(ri), "damaged log silently accepted ({what}, checkpoint after {ckpt_after:?}): state is not the longest undamaged prefix");
         }
     }
